@@ -27,7 +27,7 @@ func Run(tier string, seed uint64, modelPath, repo string, out *res.Result) erro
 	}
 	out.Rule = "class F: documents generated from an abstract tree (html>body>1-5 blocks, nesting<=4, paragraphs of 1-8 <br>-separated unique 3-char tokens, " +
 		"font 20px/20px Ahem, page content heights 40-215px, break-before/after (auto avoid page left right recto verso), break-inside, orphans/widows 1-4, one in five a long parent of 8-14 short avoid-glued paragraphs, " +
-		"margins (incl. negative, quarter px), padding, borders); general: the same plus floats, floats glued into a line, abs-pos, fixed, inline-blocks, visibility:hidden ancestors with visible descendants, nested positioned boxes, tables with thead/tfoot, 3-column tables with colspan/rowspan before tall cells that break across pages, footnotes with counter(pages) content (pages made twice), ::first-letter (inline / floated, punctuation, nested spans); every layout under a per-document page limit; " +
+		"margins (incl. negative, quarter px), padding, borders); general: the same plus floats, floats glued into a line, abs-pos, fixed, inline-blocks, glued inline elements, inline-level stacking contexts, break-inside:avoid table rows, visibility:hidden ancestors with visible descendants, nested positioned boxes, tables with thead/tfoot, 3-column tables with colspan/rowspan before tall cells that break across pages, footnotes with counter(pages) content (pages made twice), ::first-letter (inline / floated, punctuation, nested spans); every layout under a per-document page limit; " +
 		"non-trivial = the real layout produced >= 2 pages; distinct by full HTML text"
 	render.Quiet()
 	InstallGuard()
